@@ -471,6 +471,7 @@ class Run:
                 raise
         ob["state"] = self.state()
         ob["flags"] = self.flags()
+        ob["err"] = (self.engine.has_error_state(), str(self.tag("Method Status")))
         ob["inc"] = inc
         if "tags" in self.observe:
             ob["tags"] = {k: self.tag(k) for k in SYS_TAGS}
